@@ -414,6 +414,7 @@ def run_impl(ctx, exe, cases, cmdlists, timeout=150):
     """returns list of dicts {lines, crashed, sanitizer, ended} aligned with cases."""
     results = [None] * len(cases)
     start = 0
+    aborts = 0
     while start < len(cases):
         inp = "".join(case_text(c, cm) for c, cm in zip(cases[start:], cmdlists[start:]))
         r = ctx.run(exe, inp, timeout=timeout)
@@ -442,6 +443,13 @@ def run_impl(ctx, exe, cases, cmdlists, timeout=150):
         results[cur]["crashed"] = True
         results[cur]["sanitizer"] = (r.sanitizer or ("timeout" if r.timed_out else "") + r.err[-600:]
                                      or "rc=%d" % r.rc)
+        aborts += 1
+        if aborts >= 3 and len(cases) > 3:
+            # the library aborts / hangs again and again: three concrete cases are enough, do not burn the budget
+            for j in range(cur + 1, len(cases)):
+                results[j] = {"lines": [], "crashed": True, "sanitizer": "skipped after repeated aborts",
+                              "ended": False, "skipped": True}
+            break
         start = cur + 1
     for i, x in enumerate(results):
         if x is None:
@@ -586,6 +594,9 @@ def evaluate(ctx, exe, mexe, cases, stats, structural=True):
     for c, cm, r in zip(cases, cmdlists, impl):
         n = c["N"]
         T, exact = model_table(c)
+        if r.get("skipped"):
+            stats["skipped_cases"] = stats.get("skipped_cases", 0) + 1
+            continue
         if r["crashed"] or not r["ended"]:
             stats["aborted_cases"] = stats.get("aborted_cases", 0) + 1
             if stats["aborted_cases"] > 3 and ctx.has_violation():
@@ -935,11 +946,11 @@ def run(ctx):
     large = [c for c in cases if c["N"] > 150]
     for i in range(0, len(small), 150):
         n += evaluate(ctx, exe, mexe, small[i:i + 150], stats)
-        if stats.get("aborted_cases", 0) > 6 and ctx.has_violation():
+        if stats.get("aborted_cases", 0) >= 3 and ctx.has_violation():
             ctx.note("stopped after %d aborted cases (hang / crash of the library)" % stats["aborted_cases"])
             break
     for c in large:
-        if stats.get("aborted_cases", 0) > 6 and ctx.has_violation():
+        if stats.get("aborted_cases", 0) >= 3 and ctx.has_violation():
             break
         n += evaluate(ctx, exe, mexe, [c], stats)
     if ctx.is_unshown():
